@@ -265,7 +265,17 @@ class MonteCarlo(SingleDriver, Generic[MoveType, CriteriaType]):
 
         return dictionary
 
-    todict = to_dict
+    def todict(self) -> dict[str, Any]:
+        """
+        Convert the `MonteCarlo` object to a dictionary, as `to_dict` does. This is the
+        name ASE's JSON encoder looks for, e.g. when the restart file is written.
+
+        Returns
+        -------
+        dict[str, Any]
+            A dictionary representation of the `MonteCarlo` object.
+        """
+        return self.to_dict()
 
     @classmethod
     def from_dict(cls, data: dict[str, Any], **kwargs_override: Any) -> Self:
